@@ -209,6 +209,38 @@ def r3_per_thread_state(rule, root=None):
 from .. import factrules as FR
 
 
+
+def r5_pool_independence(rule, root=None):
+    """what keeps a pooled build's octree equal to the serial one: the pre-split never goes below the
+    requested depth (strict `<` against min(8^depth, ..)), leaves are built exactly at max depth, and a
+    collapsible group of cells collapses whether or not it is the tail of the cell array"""
+    m = A.find_fn(OCT, "build_inner_mt", self_ty="Octree", root=root)
+    t = txt(m["body"])
+    ws = [w for w in A.find(m["body"], "While") if "todo.len()" in A.unparse(w["cond"])]
+    if len(ws) == 1 and A.norm_cond(str(txt(A.strip(ws[0]["cond"])))) in ("todo.len()<target_count", "target_count>todo.len()") and t.fmatch("lettarget_count=8usize.pow(u32::from(settings.depth)).min((threads.thread_count()*10));") is not None:
+        rule.ok("the work queue is split only while it is shorter than min(8^depth, 10 x threads)", file=OCT, line=ws[0]["ln"])
+    else:
+        rule.bad("pool|split", "build_inner_mt must stop splitting as soon as the queue has min(8^depth, 10 x threads) cells (`while todo.len() < target_count`): one split more goes below the requested depth in one corner only when a pool is used", A.where(m))
+    rc = A.find_fn(OCT, "recurse", self_ty="OctreeBuilder", root=root)
+    ifs = [i for i in A.find(rc["body"], "If") if "max_depth" in A.unparse(i["cond"])]
+    if len(ifs) == 1 and A.norm_cond(str(txt(A.strip(ifs[0]["cond"])))) in ("cell.depth==self.max_depthasusize", "cell.depth==(self.max_depthasusize)", "self.max_depthasusize==cell.depth"):
+        rule.ok("leaves are built exactly at max depth (a deeper cell would be a bug, not a leaf)")
+    else:
+        rule.bad("pool|leaf-depth", "OctreeBuilder::recurse must build leaves exactly when cell.depth == max_depth", A.where(rc))
+    cd = A.find_fn(OCT, "check_done", self_ty="Octree", root=root)
+    bad = []
+    for r_ in A.find(cd["body"], "Return"):
+        conds = A.enclosing_conds(cd["body"], r_) or []
+        in_scan = any(c.startswith("match self.cells[index]") or c.startswith("match *child") or c.startswith("match child") for c in conds)
+        if not in_scan:
+            bad.append(r_)
+    tail = A.strip(A.stmt_expr(cd["body"]["stmts"][-1]) or {})
+    if not bad and A.ident(tail) is not None:
+        rule.ok("check_done returns the collapsed cell wherever its children sit in the array")
+    else:
+        rule.bad("pool|check_done", "Octree::check_done returns `%s` early: a collapsible group must collapse whether or not it is the last entry of `cells` (only the pooled build has groups in the middle)" % (A.unparse(bad[0].get("e") or {})[:40] if bad else "?"), A.where(cd, bad[0] if bad else None))
+
+
 def run(ctx):
     r = ctx.rule("R1", "an abort originates only from the cancel token (or a child's abort) and turns the whole result into None", 16)
     ctx.guarded(r, r1_cancellation)
@@ -222,5 +254,7 @@ def run(ctx):
     ctx.guarded(r, R.r_effect_siblings)
     r = ctx.rule("R4", "multithreaded merge offsets (= C08.R2)", 12)
     ctx.guarded(r, r2_merge_offsets)
+    r = ctx.rule("R5", "a pooled build splits and collapses exactly like the serial one (split bound, leaf depth, collapse anywhere in the array)", 3)
+    ctx.guarded(r, r5_pool_independence)
     r = ctx.rule("R2f", "[resolved program] Send/Sync unsafe impls equal the vetted seven; JIT handles and VarMap are never written after construction", 8)
     ctx.guarded(r, FR.send_sync_inventory, ctx)
